@@ -193,6 +193,8 @@ def run(chk, w):
     if not xor_stores:
         chk.violation("C02-RAW", asm.name, "no-unescape", "%s:%d" % (asm.relfile, asm.line), "no un-escaping found")
 
+    delim_rule(chk, asm, "C02-DELIM", cmps, reads, pk_stores, MAGIC)
+
     # ---- SAME-EXIT
     chk.rule("C02-EXIT", "a CRC failure returns to the caller exactly like a good packet (no extra resynchronisation)")
     if asm.ret == "void":
@@ -307,6 +309,60 @@ def _progress(chk, w, E, split):
             chk.violation("C02-PROG", split.name, "no-progress", s.loc(), "the read position may advance by %s bytes: a zero step stalls the receiver" % lo)
     if not found:
         chk.abstain("C02-PROG", "position update 'i += j' not recognised", split.name)
+
+
+def delim_rule(chk, asm, rid, cmps, reads, pk_stores, MAGIC):
+    # ---- DELIM: the delimiter is never taken for payload (also not right after an escape byte)
+    chk.rule(rid, "every byte is compared with the packet delimiter before it can be stored as payload: 0xFE always ends/starts a packet, so a truncated packet cannot swallow the next one")
+    magic_cmps = {c.id for c in cmps.get(MAGIC, [])}
+    for (ps, g_, b_) in pk_stores:
+        bad = None
+        for rd_id in sorted(reads):
+            rd = asm.insts[rd_id]
+            p = rules.exists_path(asm, rd, lambda x, ps=ps: x.id == ps.id, lambda x: x.id in magic_cmps or (x.id in reads and x.id != rd_id))
+            if p:
+                bad = (rd, p)
+                break
+        if bad:
+            chk.violation(rid, asm.name, "payload-without-delimiter-test", ps.loc(),
+                          "the byte read at line %d can be stored into the packet at line %d without having been compared with the delimiter 0x%02X (%s): after an escape byte a delimiter is swallowed and the following packet is lost" % (
+                              bad[0].line, ps.line, MAGIC, rules.path_text(bad[1])))
+        else:
+            chk.ok(rid, 1, {"store": ps.loc()})
+
+
+
+def delim_standalone(chk, w, rid):
+    """the delimiter rule for another property driver (C12: a truncated packet must not stop later packets)"""
+    P = w.P
+    D, disp, asm, split, readers = receiver_roles(w)
+    MAGIC = w.macro("BIDIB_PKT_MAGIC")
+    data_cells = set()
+    for (f, i) in readers:
+        if f is asm:
+            for s in asm.all_insts():
+                if s.op == "store" and s["val"].get("k") == "inst" and s["val"]["id"] == i.id:
+                    data_cells.add(s["ptr"]["id"])
+    cmps = {}
+    for i in asm.all_insts():
+        if i.op == "icmp" and i["pred"] in ("eq", "ne"):
+            cv = rules.const_of(asm, i["b"])
+            src = rules.load_source(asm, i["a"])
+            if cv is not None and src and src[0] == "alloca" and src[1] in data_cells:
+                cmps.setdefault(cv & 0xff, []).append(i)
+    reads = {s.id for s in asm.all_insts() if s.op == "store" and s["ptr"].get("k") == "inst" and s["ptr"]["id"] in data_cells and
+             s["val"].get("k") == "inst" and asm.insts[s["val"]["id"]].op == "call"}
+    pk_stores = []
+    for i in asm.all_insts():
+        if i.op == "store":
+            g = asm.resolve(i["ptr"])
+            if g is not None and g.op == "getelementptr" and g["idx"]:
+                b = asm.resolve(g["base"])
+                if b is not None and b.op == "alloca" and b["aty"].startswith("["):
+                    pk_stores.append((i, g, b))
+    if not pk_stores or not reads:
+        raise AnalysisBroken("packet buffer stores / byte reads not found in %s" % asm.name)
+    delim_rule(chk, asm, rid, cmps, reads, pk_stores, MAGIC)
 
 
 def _cond_loads(f, o, depth=0, seen=None):
